@@ -76,7 +76,7 @@ func hasToken(op string) bool {
 // A failure is decisive unless it is a read whose error the code may ignore, or a webhook
 // attempt with a retryable failure that is followed by a further attempt at the same kind of
 // webhook (the later attempt decides).
-func failClosed(cl, got string, trace, ids []string, stored, rev, tok int, reuse string, noDB bool) string {
+func failClosed(cl, got string, trace, ids []string, handedN, recordedN, rev, tok int, reuse string, noDB bool) string {
 	if cl == "ok" {
 		asked, allowed := false, false
 		for _, ev := range trace {
@@ -103,7 +103,10 @@ func failClosed(cl, got string, trace, ids []string, stored, rev, tok int, reuse
 			}
 			return "BROKEN"
 		}
-		if got == "cert" && stored == 0 && !noDB {
+		if recordedN < handedN && !noDB { // a certificate in the response is not in the database
+			return "BROKEN"
+		}
+		if got == "cert" && handedN == 0 {
 			return "BROKEN"
 		}
 		if got == "ack" && rev == 0 {
@@ -159,6 +162,8 @@ func runCase(k *Case) (res result) {
 	ev := e.rec.stop()
 	ids := e.rec.endpoints()
 	after := e.snapshot()
+	hs := r.certs()
+	nrec := e.recorded(hs)
 	reuse := "na"
 	if hasToken(k.Op) {
 		if r2 := e.do(q); r2.status >= 200 && r2.status <= 299 {
@@ -176,9 +181,9 @@ func runCase(k *Case) (res result) {
 	}
 	d := func(t string) int { return after[t] - before[t] }
 	stored, rev := d("x509_certs")+d("ssh_certs"), d("revoked_x509_certs")+d("revoked_ssh_certs")
-	out := fmt.Sprintf("%s got=%s tok=%d stored=%d data=%d rev=%d reuse=%s fc=%s trace=%s", cl, r.got(),
-		d("used_ott"), stored, d("x509_certs_data"), rev, reuse,
-		failClosed(cl, r.got(), ev, ids, stored, rev, d("used_ott"), reuse, k.NoDB), c.List(ev))
+	out := fmt.Sprintf("%s got=%s tok=%d stored=%d data=%d rev=%d reuse=%s handed=%d recorded=%d fc=%s trace=%s", cl, r.got(),
+		d("used_ott"), stored, d("x509_certs_data"), rev, reuse, len(hs), nrec,
+		failClosed(cl, r.got(), ev, ids, len(hs), nrec, rev, d("used_ott"), reuse, k.NoDB), c.List(ev))
 	return result{out: out, trace: ev}
 }
 
@@ -202,8 +207,10 @@ func faultKinds(step string) []Fault {
 	case "crlRead", "crlList":
 		return []Fault{{Kind: "error"}, {Kind: "malformed"}}
 	case "enrich", "authorize", "challenge", "notify":
-		return []Fault{{Kind: "error", Sub: "5xx"}, {Kind: "error", Sub: "refused"}, {Kind: "deny"},
-			{Kind: "malformed", Sub: "4xx"}, {Kind: "malformed", Sub: "garbage"}, {Kind: "timeout"}}
+		return []Fault{{Kind: "error", Sub: "5xx"}, {Kind: "error", Sub: "refused"}, {Kind: "error", Sub: "eof"},
+			{Kind: "deny", Sub: "deny"}, {Kind: "deny", Sub: "null"}, {Kind: "deny", Sub: "emptyobj"},
+			{Kind: "malformed", Sub: "4xx"}, {Kind: "malformed", Sub: "garbage"}, {Kind: "malformed", Sub: "empty"},
+			{Kind: "malformed", Sub: "truncated"}, {Kind: "malformed", Sub: "wrongtype"}, {Kind: "timeout"}}
 	}
 	return []Fault{{Kind: "error"}}
 }
@@ -239,6 +246,8 @@ var scenarios = []scenario{
 	{Op: "sshsign", Chks: []int{0, 1, 4}}, {Op: "sshsign", E: 1, A: 2, Chks: []int{0, 1, 4}},
 	{Op: "sshrenew", Chks: []int{0}}, {Op: "sshrekey", Chks: []int{0}}, {Op: "sshrevoke", Chks: []int{0}},
 	{Op: "sshrevoke", CRL: true},
+	// the SSH sign handler issuing three certificates: user, add-user, X.509 identity
+	{Op: "sshsignfull"}, {Op: "sshsignfull", E: 1, A: 1},
 	// acme: 0 JWS shape, 1 signature / payload, 2 order ownership, 3 CSR vs identifiers
 	{Op: "acme", Chks: []int{3}}, {Op: "acme", E: 1, A: 1, Chks: []int{3}},
 	// SCEP: 0 parse+decrypt, (1 static challenge when ch=0), then AuthorizeSign, request
@@ -254,7 +263,7 @@ var scenarios = []scenario{
 }
 
 var srcFns = []string{"authorizeToken", "authorizeSign", "signX509", "authorizeRenew", "renewContext", "Revoke",
-	"signSSH", "renewSSH", "rekeySSH", "Finalize", "FinalizeOrder", "PKIOperation", "SignCSR", "Validate", "DoWithContext"}
+	"signSSH", "SignSSHAddUser", "renewSSH", "rekeySSH", "Finalize", "FinalizeOrder", "PKIOperation", "SignCSR", "Validate", "DoWithContext"}
 
 func runAll(ks []*Case, workers int) []result {
 	out := make([]result, len(ks))
@@ -282,7 +291,7 @@ func main() {
 	pairs := flag.Bool("pairs", false, "enumerate all pairs of fault positions (thorough tier)")
 	outp := flag.String("out", "", "output file (input<TAB>impl)")
 	replay := flag.String("replay", "", "file of case lines (case=… field) to re-run instead of generating")
-	workers := flag.Int("workers", 8, "parallel cases")
+	workers := flag.Int("workers", 12, "parallel cases")
 	only := flag.String("op", "", "restrict to one operation (debugging)")
 	flag.Parse()
 	o, err := c.NewOut(*outp)
@@ -375,6 +384,7 @@ func main() {
 					ks = append(ks, mk(at(p, Fault{Kind: "error", Sub: "5xx"}), at(p+1, f2)))
 				}
 				ks = append(ks, mk(at(p, Fault{Kind: "error", Sub: "refused"}), at(p+1, Fault{Kind: "error", Sub: "refused"})))
+				ks = append(ks, mk(at(p, Fault{Kind: "error", Sub: "eof"}), at(p+1, Fault{Kind: "error", Sub: "eof"})))
 			}
 		}
 		// a check failing in a request that also meets a storage fault
